@@ -439,4 +439,7 @@ func main() {
 	if err := os.WriteFile(filepath.Join(*out, "Globals.v"), []byte(sb.String()), 0o644); err != nil {
 		panic(err)
 	}
+	if err := srcgen(pkgs, *out); err != nil {
+		panic(err)
+	}
 }
